@@ -186,4 +186,254 @@ Proof.
   pose proof (wf_edef_acc sc e (wf_exploits sc e WS He)) as Hacc. lia.
 Qed.
 
+(* ---------- owned subnets ---------- *)
+Definition owned (st : state) (t : nat) : Prop :=
+  exists y, In y (addresses sc) /\ fst y = t /\ h_comp (row sc st y) = true
+            /\ 1 <= h_acc (row sc st y).
+
+Lemma owned_mono st st' t : state_le sc st st' -> owned st t -> owned st' t.
+Proof.
+  intros L (y & Hy & Ht & Hc & Ha). exists y. destruct (L y Hy) as (L1 & _ & _ & L4).
+  split; [exact Hy|]. split; [exact Ht|]. split; [apply L1; exact Hc|lia].
+Qed.
+
+(* ---------- (P1) entering the DMZ ---------- *)
+Lemma enter_dmz st : good st -> exists st', Ext st st' /\ owned st' 1.
+Proof.
+  intros G. pose proof (wf_nsubnets sc WS) as N.
+  assert (C01 : connected sc 0 1 = true).
+  { rewrite (wf_connected_sym sc (s:=0) (t:=1) WS) by lia. exact Hpub1. }
+  destruct (Hfw 0 1) as (srv & a & c & e & F & Hin & Ha & He & Hs & Hv); try lia; [exact C01|].
+  assert (Hx : In a (addresses sc)) by (eapply in_cfg_addresses; exact Hin).
+  assert (Hp : subnet_public sc (fst a) = true) by (rewrite Ha; exact Hpub1).
+  destruct (good_public st a G Hx Hp) as [D _].
+  destruct (exploit_step st a c e G Hin He Hv D) as (st' & E & C1 & C2 & _).
+  - left. cbn [mk_exploit a_tgt]. exact Hp.
+  - left. cbn [mk_exploit a_tgt a_srv]. split; [exact Hp|]. rewrite Ha, Hs. exact F.
+  - exists st'. split; [exact E|]. exists a. auto.
+Qed.
+
+(* ---------- (P2) a subnet scan from a compromised host ---------- *)
+Lemma scan_step st y :
+  good st -> In y (addresses sc) -> h_comp (row sc st y) = true -> 1 <= h_acc (row sc st y) ->
+  exists st', Ext st st'
+    /\ forall z, In z (addresses sc) -> connected sc (fst y) (fst z) = true ->
+                 h_disc (row sc st' z) = true.
+Proof.
+  intros G Hy Hc Ha. pose proof G as (W & I & L).
+  assert (Hd : h_disc (row sc st y) = true) by (apply (I y Hy); exact Hc).
+  assert (Hr : h_reach (row sc st y) = true) by (apply (I y Hy); exact Hd).
+  set (a := mk_scan KSubScan y (s_subc sc)).
+  assert (Hfl : In a (flat sc)) by (apply flat_subscan; exact Hy).
+  assert (Et : a_tgt a = y) by reflexivity.
+  assert (Hg : gates_ok sc st a = true).
+  { unfold gates_ok, trow. cbv zeta. rewrite Et. unfold row in Hr, Hd. rewrite Hr, Hd. reflexivity. }
+  assert (S : r_success (Spec.res sc st a 0%Z) = true).
+  { unfold Spec.res. rewrite (pa_gates_ok sc st a 0%Z eq_refl Hg).
+    unfold pa_body. cbv zeta.
+    assert (E1 : is_exploit a = false) by reflexivity.
+    assert (E2 : chance_fails a 0%Z = false) by reflexivity.
+    assert (E3 : is_subnet_scan a = true) by reflexivity.
+    rewrite E1, E2, E3. cbn [andb negb]. unfold subnet_scan. cbv zeta. rewrite Et.
+    unfold row in Hc, Ha. rewrite Hc. cbn [negb].
+    assert (E4 : has_access (get_row sc st y) (a_req a) = true).
+    { unfold has_access. apply Nat.leb_le. exact Ha. }
+    rewrite E4. reflexivity. }
+  exists (next sc st a 0%Z). split; [apply Ext_step; assumption|].
+  intros z Hz Cz.
+  rewrite (C03_scan_discovers_exactly_proof sc st a 0%Z z WS W Hz eq_refl S).
+  rewrite Et, Cz. apply orb_true_r.
+Qed.
+
+(* ---------- (P3) spreading along an edge ---------- *)
+Lemma spread st s t :
+  good st -> owned st s -> s <> t -> 1 <= t < nsubnets sc -> connected sc s t = true ->
+  (forall z, In z (addresses sc) -> fst z = t -> h_disc (row sc st z) = true) ->
+  exists st', Ext st st' /\ owned st' t.
+Proof.
+  intros G (y & Hy & Hys & Hc & Hacc) Hne Ht Hcon Hdisc.
+  pose proof (addr_bounds y Hy) as By. rewrite Hys in By.
+  destruct (Hfw s t) as (srv & a & c & e & F & Hin & Ha & He & Hs & Hv); try lia; [exact Hcon|].
+  assert (Hx : In a (addresses sc)) by (eapply in_cfg_addresses; exact Hin).
+  destruct (pivot_admits_from st y a e Hy Hc Hacc) as [Hpiv Hadm].
+  { right. rewrite Hys, Ha, Hs. split; assumption. }
+  destruct (exploit_step st a c e G Hin He Hv (Hdisc a Hx Ha) Hpiv Hadm) as (st' & E & C1 & C2 & _).
+  exists st'. split; [exact E|]. exists a. auto.
+Qed.
+
+(* ---------- (P4) rooting a host inside an owned subnet ---------- *)
+Lemma root_host st x c :
+  good st -> owned st (fst x) -> In (x, c) (s_hosts sc) -> cfg_root_vulnerable sc c = true ->
+  h_disc (row sc st x) = true ->
+  exists st', Ext st st' /\ 2 <= h_acc (row sc st' x).
+Proof.
+  intros G (y & Hy & Hys & Hc & Hacc) Hin Hrv Hd.
+  assert (Hx : In x (addresses sc)) by (eapply in_cfg_addresses; exact Hin).
+  unfold cfg_root_vulnerable in Hrv. apply existsb_exists in Hrv.
+  destruct Hrv as (e & He & Hrv). apply andb_true_iff in Hrv. destruct Hrv as [Hv Hrv].
+  destruct (pivot_admits_from st y x e Hy Hc Hacc (or_introl Hys)) as [Hpiv Hadm].
+  destruct (exploit_step st x c e G Hin He Hv Hd Hpiv Hadm) as (st1 & E1 & C1 & C2 & C3).
+  apply orb_true_iff in Hrv. destruct Hrv as [Hrv|Hrv].
+  - apply Nat.leb_le in Hrv. exists st1. split; [exact E1|lia].
+  - apply existsb_exists in Hrv. destruct Hrv as (q & Hq & Hvq).
+    pose proof E1 as (_ & G1 & _). pose proof G1 as (W1 & I1 & _).
+    assert (Hd1 : h_disc (row sc st1 x) = true) by (apply (I1 x Hx); exact C1).
+    assert (Hr1 : h_reach (row sc st1 x) = true) by (apply (I1 x Hx); exact Hd1).
+    assert (Hfl : In (mk_privesc x q) (flat sc)) by (apply flat_privesc; assumption).
+    destruct (row_cfg st1 x c W1 Hin) as (Eos & _ & Eproc).
+    assert (Hpre : pre_privesc (trow sc st1 (mk_privesc x q)) (mk_privesc x q) = true).
+    { unfold pre_privesc, trow, os_match. cbn [mk_privesc a_tgt a_req a_proc a_os].
+      unfold row in Eos, Eproc, C1, C2. rewrite Eos, Eproc, C1.
+      assert (E4 : Nat.leb USER (h_acc (get_row sc st1 x)) = true) by (apply Nat.leb_le; exact C2).
+      rewrite E4. cbn [andb]. exact Hvq. }
+    assert (Hpz : (0 < a_pz (mk_privesc x q))%Z).
+    { cbn [mk_privesc a_pz]. rewrite Forall_forall in Hppz. apply Hppz. exact Hq. }
+    destruct (C01_privesc_must_succeed_proof sc st1 (mk_privesc x q) 0%Z WS W1 (flat_ok _ Hfl)
+                eq_refl Hr1 Hd1 Hpre Hpz) as (_ & _ & D2).
+    exists (next sc st1 (mk_privesc x q) 0%Z). split.
+    + eapply Ext_trans; [exact E1|]. apply Ext_step; assumption.
+    + unfold trow in D2. cbn [mk_privesc a_tgt a_acc] in D2. unfold row. rewrite D2.
+      rewrite (Hpacc q Hq). lia.
+Qed.
+
+(* ---------- (M1) every subnet can be owned, with all its hosts discovered ---------- *)
+Definition subnet_disc (st : state) (t : nat) : Prop :=
+  forall z, In z (addresses sc) -> fst z = t -> h_disc (row sc st z) = true.
+
+Lemma subnet_disc_mono st st' t : state_le sc st st' -> subnet_disc st t -> subnet_disc st' t.
+Proof. intros L D z Hz Ht. destruct (L z Hz) as (_ & _ & L3 & _). apply L3. apply D; assumption. Qed.
+
+Lemma own_subnet : forall t, 1 <= t < nsubnets sc ->
+  forall st, good st -> exists st', Ext st st' /\ owned st' t /\ subnet_disc st' t.
+Proof.
+  intros t. induction t as [t IH] using lt_wf_ind. intros Ht st G.
+  destruct (Nat.eq_dec t 1) as [->|Hne].
+  - destruct (enter_dmz st G) as (st' & E & O). exists st'. split; [exact E|]. split; [exact O|].
+    destruct E as (_ & G' & _). intros z Hz Hz1. apply (good_public st' z G' Hz).
+    rewrite Hz1. exact Hpub1.
+  - destruct (Hpar t) as (s & Hs & Hcon); [lia|].
+    destruct (IH s) with (st := st) as (st1 & E1 & O1 & _); [lia|lia|exact G|].
+    pose proof E1 as (_ & G1 & _).
+    destruct O1 as (y & Hy & Hys & Hc & Hacc).
+    destruct (scan_step st1 y G1 Hy Hc Hacc) as (st2 & E2 & D2).
+    pose proof E2 as (_ & G2 & L2).
+    assert (O2 : owned st2 s).
+    { apply (owned_mono st1 st2 s L2). exists y. auto. }
+    assert (SD2 : subnet_disc st2 t).
+    { intros z Hz Hzt. apply D2; [exact Hz|]. rewrite Hys, Hzt. exact Hcon. }
+    destruct (spread st2 s t G2 O2) as (st3 & E3 & O3); [lia|lia|exact Hcon|exact SD2|].
+    exists st3. split; [eapply Ext_trans; [exact E1|]; eapply Ext_trans; eassumption|].
+    split; [exact O3|]. destruct E3 as (_ & _ & L3). eapply subnet_disc_mono; eassumption.
+Qed.
+
+(* ---------- (M2) every root-vulnerable host can be rooted ---------- *)
+Lemma root_any st x c :
+  good st -> In (x, c) (s_hosts sc) -> cfg_root_vulnerable sc c = true ->
+  exists st', Ext st st' /\ 2 <= h_acc (row sc st' x).
+Proof.
+  intros G Hin Hrv.
+  assert (Hx : In x (addresses sc)) by (eapply in_cfg_addresses; exact Hin).
+  pose proof (addr_bounds x Hx) as Bx.
+  destruct (own_subnet (fst x)) with (st := st) as (st1 & E1 & O1 & D1); [lia|exact G|].
+  pose proof E1 as (_ & G1 & _).
+  destruct (root_host st1 x c G1 O1 Hin Hrv (D1 x Hx eq_refl)) as (st2 & E2 & A2).
+  exists st2. split; [eapply Ext_trans; eassumption|exact A2].
+Qed.
+
+(* ---------- (M3) all sensitive hosts ---------- *)
+Lemma root_all : forall L : list (addr * Z), (forall e, In e L -> In e (s_sens sc)) ->
+  forall st, good st ->
+  exists st', Ext st st' /\ forall e, In e L -> 2 <= h_acc (row sc st' (fst e)).
+Proof.
+  induction L as [|e0 L IH]; intros Hsub st G.
+  - exists st. split; [apply Ext_refl; exact G|]. intros e [].
+  - destruct (IH (fun e He => Hsub e (or_intror He)) st G) as (st1 & E1 & A1).
+    pose proof E1 as (_ & G1 & _).
+    destruct e0 as [a v].
+    destruct (Hsens a v (Hsub _ (or_introl eq_refl))) as (c & Hin & Hrv).
+    destruct (root_any st1 a c G1 Hin Hrv) as (st2 & E2 & A2).
+    exists st2. split; [eapply Ext_trans; eassumption|].
+    intros e [<-|He]; [exact A2|].
+    destruct E2 as (_ & _ & L2).
+    assert (Hx : In (fst e) (addresses sc)).
+    { destruct e as [a' v']. destruct (Hsens a' v' (Hsub _ (or_intror He))) as (c' & Hin' & _).
+      eapply in_cfg_addresses. exact Hin'. }
+    destruct (L2 (fst e) Hx) as (_ & _ & _ & L4). specialize (A1 e He). lia.
+Qed.
+
+Theorem abstract_solvable :
+  exists l, Forall (fun a => In a (flat sc)) l
+            /\ goal sc (replay sc (initial_state sc) l) = true.
+Proof.
+  destruct (root_all (s_sens sc) (fun e He => He) (initial_state sc) good_init)
+    as (st' & ((l & Fl & El) & _ & _) & A).
+  exists l. split; [exact Fl|]. rewrite <- El. unfold goal. apply forallb_forall.
+  intros e He. unfold has_access. apply Nat.leb_le. apply (A e He).
+Qed.
+
 End Dyn.
+
+
+(* ====================================================================== *)
+(* Part B: generated scenarios                                             *)
+(* ====================================================================== *)
+Lemma gen_connected_eq p o sc : gen_ok p o sc ->
+  forall s t, s < nsubnets sc -> t < nsubnets sc ->
+    connected sc s t = gen_connected (nsubnets sc) s t.
+Proof.
+  intros [rest H]. gen_unpack H PO St.
+  destruct H as [H1 [H2 [H3 [H4 [H5 [H6 [H7 Hsc]]]]]]]. subst sc.
+  unfold connected, nsubnets. sc_proj. intros s t Hs Ht. apply gen_topology_nth; assumption.
+Qed.
+
+(* the parent of subnet t >= 2: the DMZ for the sensitive subnet and the root of the user tree,
+   the tree parent otherwise *)
+Lemma gen_parent n t : 4 <= n -> 2 <= t < n ->
+  exists s, 1 <= s < t /\ gen_connected n s t = true.
+Proof.
+  intros Hn Ht. destruct (Nat.lt_ge_cases t 4) as [L|L].
+  - exists 1. split; [lia|].
+    assert (E : t = 2 \/ t = 3) by lia. destruct E as [->| ->]; reflexivity.
+  - pose proof (Nat.div_mod (t - 4) 2) as DM. pose proof (Nat.mod_upper_bound (t - 4) 2) as MB.
+    set (pos := (t - 4) / 2) in *. set (m := (t - 4) mod 2) in *.
+    exists (pos + 3). split; [lia|]. unfold gen_connected.
+    replace (Nat.ltb t 4) with false by (symmetry; apply Nat.ltb_ge; lia).
+    rewrite andb_false_r.
+    replace (Nat.eqb n 4) with false by (symmetry; apply Nat.eqb_neq; lia).
+    replace (Nat.ltb (pos + 3) 3) with false by (symmetry; apply Nat.ltb_ge; lia).
+    rewrite !orb_true_iff, !andb_true_iff, !Nat.eqb_eq, !Nat.ltb_lt. lia.
+Qed.
+
+Lemma C16_generated_proof : C16_generated_stmt.
+Proof.
+  intros p o sc G WS Hepz Hppz.
+  pose proof (C15_shape_proof p o sc G) as (_ & _ & _ & N4 & _).
+  fold (nsubnets sc) in N4.
+  pose proof (C15_topology_proof p o sc G) as (_ & _ & _ & _ & Tpub). cbv zeta in Tpub.
+  pose proof (C15_hosts_proof p o sc G) as (_ & Thosts).
+  pose proof (C15_actions_proof p o sc G) as (_ & Tpe & _).
+  pose proof (C15_firewall_proof p o sc G) as (Tfw & _). cbv zeta in Tfw.
+  apply (abstract_solvable sc WS Hepz Hppz).
+  - (* no host firewalls *)
+    intros a c Hin. rewrite Forall_forall in Thosts. specialize (Thosts _ Hin).
+    cbn [snd] in Thosts. tauto.
+  - (* escalations grant root *)
+    intros q Hq. rewrite Forall_forall in Tpe. specialize (Tpe _ Hq). tauto.
+  - (* the DMZ is public *)
+    apply Tpub; [lia|reflexivity].
+  - (* usable firewall entries *)
+    intros s t Hs Ht Hne Hcon Ht1.
+    destruct (assoc (s, t) (s_fw sc)) as [l|] eqn:El.
+    2:{ exfalso. apply (proj2 (Tfw s t Hs Ht)); [split; assumption|exact El]. }
+    destruct (C16_gen_firewall_admits_usable_service p o sc G s t l El Ht1)
+      as (srv & a & c & e & Hl & Hin & Ha & He & Hsrv & Hv).
+    exists srv, a, c, e. split; [|auto].
+    unfold fw_allows. rewrite El. apply mem_nat_In. exact Hl.
+  - (* tree-like topology *)
+    intros t Ht. destruct (gen_parent (nsubnets sc) t N4 Ht) as (s & Hs & Hc).
+    exists s. split; [exact Hs|]. rewrite (gen_connected_eq p o sc G) by lia. exact Hc.
+  - (* sensitive hosts *)
+    apply (C16_gen_sensitive_root_vulnerable p o sc G).
+Qed.
+
+Print Assumptions C16_generated_proof.
